@@ -31,7 +31,8 @@ from fractions import Fraction
 NUMERIC = ('num', 'int')
 LEAN_TY = {'num': 'α', 'int': 'Int', 'nat': 'Nat', 'bool': 'Bool', 'truthy': 'Bool', 'optint': 'Option Int',
            'optnum': 'Option α', 'effect': 'Nat', 'dictnum': 'α', 'dictint': 'Int', 'dictoptint': 'Option Int',
-           'listnum': 'List α'}
+           'listnum': 'List α', 'flag': 'Nat'}
+RAISED = {'AssertionError': 1, 'ValueError': 2, 'TypeError': 3, 'KeyError': 4}     # values of a `raised : flag` field (0 = nothing raised)
 RESERVED = {'s', 'at', 'from', 'end', 'then', 'else', 'fun', 'let', 'have', 'show', 'do', 'match', 'with', 'if', 'in',
             'open', 'def', 'theorem', 'where', 'by', 'Type', 'Prop', 'α', 'true', 'false', 'some', 'none'}
 
@@ -151,12 +152,21 @@ class ETr:
     """
 
     def __init__(self, schema, params=None, ext=None, draw=None, keys=(), methods=None, effects=(), loops=(),
-                 ignore_calls=('print', 'self.dprint'), key_exprs=()):
+                 ignore_calls=('print', 'self.dprint'), key_exprs=(), draws=None, strings=None):
         self.schema = schema
         self.scope = dict(params or {})          # local/param name -> type
         self.ext = dict(ext or {})
-        self.draw = draw
-        self.drawn = False
+        self.draws = dict(draws or {})            # python expression text of a random input -> lean parameter
+        if draw:
+            self.draws[draw[0]] = draw[1]
+        self.drawn = set()                        # draws consumed on the current path
+        self.strings = dict(strings or {})        # string literal -> int code (e.g. colours)
+        self.yield_index = {}                     # id(yield statement) -> number (source order), set by `emit_generator`
+        self.after = {}                           # yield number -> the statements that follow it (its continuation)
+        self.poison_at = {}                       # yield number -> locals bound when it suspends (stale afterwards)
+        self.poison = set()                       # names that must not be read in this fragment
+        self.param_names = set(self.scope)
+        self.aliases = set()                      # locals that alias an external quantity (`now = env.now`)
         self.keys = set(keys)
         self.key_exprs = set(key_exprs)       # `k = <one of these>` declares the local k to be the class in hand
         self.methods = dict(methods or {})
@@ -164,23 +174,24 @@ class ETr:
         self.loops = list(loops)
         self.ignore_calls = set(ignore_calls)
         self.narrow = {}                          # python expression text -> (lean text, type) after a None test
+        self.facts = {}                           # python expression text -> 'truthy' | 'number' | 'falsy' | 'none' (what the tests passed so far say)
         self.used_effects = set()
 
     def bind(self, params):
         """the Lean parameters of the definition being emitted: only these are in scope, only external quantities
         bound to one of them may be mentioned (anything else is `Unsupported`, never an unbound Lean name)"""
         names = dict(params)
+        self.param_names = set(names)
         self.scope = dict(names)
         self.ext = {k: v for k, v in self.ext.items() if v[0] in names}
-        if self.draw and self.draw[1] not in names:
-            self.draw = None
+        self.draws = {k: v for k, v in self.draws.items() if v in names}
 
     # -- bookkeeping of path-local facts
     def save(self):
-        return dict(self.scope), dict(self.narrow), self.drawn, set(self.keys)
+        return dict(self.scope), dict(self.narrow), set(self.drawn), set(self.keys), dict(self.facts)
 
     def restore(self, st):
-        self.scope, self.narrow, self.drawn, self.keys = dict(st[0]), dict(st[1]), st[2], set(st[3])
+        self.scope, self.narrow, self.drawn, self.keys, self.facts = dict(st[0]), dict(st[1]), set(st[2]), set(st[3]), dict(st[4])
 
     # -- literals
     def const(self, node, v):
@@ -197,6 +208,8 @@ class ETr:
             return (f'(-{body})' if fr < 0 else body), 'num', []
         if v is None:
             return 'none', 'none', []
+        if isinstance(v, str) and v in self.strings:
+            return f'({self.strings[v]} : Int)', 'int', []
         fail(node, f'literal of type {type(v).__name__}')
 
     def to_num(self, e, t, ty):
@@ -227,8 +240,11 @@ class ETr:
         if key in self.narrow:
             t, ty = self.narrow[key]
             return t, ty, []
-        if self.draw and key == self.draw[0]:
-            fail(e, 'the random draw may only appear as the whole right-hand side of a local assignment')
+        if key in self.draws:
+            if key in self.drawn:
+                fail(e, f'a second `{key}` on one path (the model hands out one such input per burst)')
+            self.drawn.add(key)
+            return self.draws[key], 'num', []
         if key in self.ext:
             n, ty = self.ext[key]
             return n, ty, []
@@ -254,6 +270,8 @@ class ETr:
                     fail(e, f'self.{f}[…] may raise KeyError (the entry may be missing)')
             fail(e, 'subscript outside the subset (only per-class dict fields indexed by the class in hand)')
         if isinstance(e, ast.Name):
+            if e.id in self.poison:
+                fail(e, f'local {e.id} is read after a `yield` that it was bound before (its value is not part of the state)')
             if e.id in self.scope:
                 return e.id, self.scope[e.id], []
             fail(e, f'unknown name {e.id}')
@@ -390,12 +408,15 @@ class ETr:
                 neg = not neg
             t = t.left
         key = ast.unparse(t)
-        if key in self.narrow:
+        if key in self.narrow or key in self.facts:
             return None
+        probe = set(self.drawn)
         try:
             txt, ty, ch = self.expr(t)
         except Unsupported:
             return None
+        finally:
+            self.drawn = probe            # a probe, not an evaluation
         if ty not in ('optint', 'optnum') or ch:
             return None
         var = key.replace('self.', '').replace('.', '_') + '_v'
@@ -404,7 +425,23 @@ class ETr:
             scrut = f'Num.optOn {txt}' if ty == 'optnum' else f'Num.optOnInt {txt}'
         else:
             scrut = txt
+        self._truth_test = truth
         return key, scrut, var, ('num' if ty == 'optnum' else 'int'), (not neg)
+
+    def static_truth(self, test):
+        """True / False when the tests passed so far on this path decide `test` (a test on an optional value), else None"""
+        if isinstance(test, ast.UnaryOp) and isinstance(test.op, ast.Not):
+            r = self.static_truth(test.operand)
+            return None if r is None else (not r)
+        if isinstance(test, ast.Compare) and len(test.ops) == 1 and isinstance(test.ops[0], (ast.Is, ast.IsNot)) \
+                and isinstance(test.comparators[0], ast.Constant) and test.comparators[0].value is None:
+            f = self.facts.get(ast.unparse(test.left))
+            isnone = {'truthy': False, 'number': False, 'none': True}.get(f)
+            if isnone is None:
+                return None
+            return isnone if isinstance(test.ops[0], ast.Is) else (not isnone)
+        f = self.facts.get(ast.unparse(test))
+        return {'truthy': True, 'falsy': False, 'none': False}.get(f)
 
     def block(self, stmts):
         """IR of the statement list (each path carries its own continuation where needed)"""
@@ -418,6 +455,30 @@ class ETr:
             if st.value is not None:
                 fail(st, 'return with a value')
             return End()
+        if isinstance(st, ast.Expr) and isinstance(st.value, ast.Yield):
+            # `yield env.timeout(dt)`: the burst ends here; what follows is the fragment `…_after_<i>`
+            if id(st) not in self.yield_index:
+                fail(st, 'a `yield` in something that is not translated as a generator')
+            i = self.yield_index[id(st)]
+            dt, ch = self.num(timeout_arg(st, 'generator'))
+            self.after.setdefault(i, rest)
+            self.poison_at.setdefault(i, set()).update(
+                [n for n in self.scope if n not in self.param_names] + list(self.aliases))
+            return Let('s', f'{{ s with yield_at := {i}, yield_dt := {dt} }}', ch, End())
+        if isinstance(st, (ast.Assert, ast.Raise)):
+            return self.raising(st, rest)
+        # a value that may be None used as a number: Python raises TypeError there
+        if isinstance(st, (ast.Assign, ast.AugAssign, ast.AnnAssign, ast.If)):
+            opt = self.first_unnarrowed_use(st)
+            if opt is not None:
+                key, txt, ty = opt
+                var = key.replace('self.', '').replace('.', '_') + '_v'
+                saved = self.save()
+                self.narrow[key] = (var, 'num' if ty == 'optnum' else 'int')
+                self.facts[key] = 'number'
+                some = self.block([st] + rest)
+                self.restore(saved)
+                return Match(txt, var, some, self.raise_node(st, 'TypeError'))
         # effects
         for ef in self.effects:
             ups = ef.match(self, st)
@@ -464,6 +525,76 @@ class ETr:
             return self.ifstmt(st, rest)
         fail(st, 'statement outside the subset')
 
+    def raise_node(self, st, exc):
+        if self.schema.fields.get('raised') != 'flag':
+            fail(st, f'the statement can raise {exc} and the schema has no `raised` field')
+        if exc not in RAISED:
+            fail(st, f'exception {exc} outside the subset')
+        return Let('s', f'{{ s with raised := {RAISED[exc]} }}', [], End())
+
+    def raising(self, st, rest):
+        """`assert e` / `raise E(...)`: the path ends with `raised` set"""
+        if isinstance(st, ast.Raise):
+            exc = st.exc.func if isinstance(st.exc, ast.Call) else st.exc
+            if not isinstance(exc, ast.Name):
+                fail(st, 'raise outside the subset')
+            return self.raise_node(st, exc.id)
+        # assert e  ==  if e: <rest> else: raise AssertionError
+        fake = ast.If(test=st.test, body=[ast.Pass()], orelse=[ast.Raise(exc=ast.Name(id='AssertionError'), cause=None)])
+        ast.copy_location(fake, st)
+        return self.ifstmt(fake, rest)
+
+    def optional_unnarrowed(self, n):
+        return isinstance(n, ast.Attribute) and isinstance(n.value, ast.Name) and n.value.id == 'self' \
+            and self.schema.fields.get(n.attr) in ('optint', 'optnum') and ast.unparse(n) not in self.narrow
+
+    def first_unnarrowed_use(self, st):
+        """the first optional field that the statement's own expressions use *as a number* without a None test
+        before it: (python text, lean text, type), else None.  (`x is None`, `if x:`, `not x` are tests, not uses.)"""
+        found = []
+
+        def visit(e, numeric):
+            if self.optional_unnarrowed(e):
+                if numeric:
+                    found.append(e)
+                return
+            if isinstance(e, ast.BinOp):
+                visit(e.left, True); visit(e.right, True)
+            elif isinstance(e, ast.UnaryOp):
+                visit(e.operand, isinstance(e.op, ast.USub))
+            elif isinstance(e, ast.BoolOp):
+                for v in e.values:
+                    visit(v, False)
+            elif isinstance(e, ast.Compare):
+                isnone = isinstance(e.ops[0], (ast.Is, ast.IsNot))
+                visit(e.left, not isnone)
+                for c in e.comparators:
+                    visit(c, not isnone)
+            elif isinstance(e, ast.Call):
+                for a in e.args:
+                    visit(a, isinstance(e.func, ast.Name) and e.func.id in ('min', 'max', 'abs'))
+        if isinstance(st, ast.If):
+            if self.narrowing(st.test) is not None or self.guarded_or(st.test) is not None:
+                return None
+            visit(st.test, False)
+        elif isinstance(st, ast.AugAssign):
+            visit(st.target, True); visit(st.value, True)
+        elif st.value is not None:
+            visit(st.value, False)
+        if not found:
+            return None
+        e = found[0]
+        return ast.unparse(e), f's.{e.attr}', self.schema.fields[e.attr]
+
+    def guarded_or(self, test):
+        """`not X or C` / `X is None or C` with an optional X: (test on X, C), else None"""
+        if isinstance(test, ast.BoolOp) and isinstance(test.op, ast.Or) and len(test.values) == 2:
+            first = test.values[0]
+            nw = self.narrowing(first)
+            if nw is not None and nw[4] is False:      # the number branch is the one where `first` is false
+                return first, test.values[1]
+        return None
+
     def assign(self, st, rest):
         if isinstance(st, (ast.Assign, ast.AnnAssign)) and st.value is not None:
             t0 = st.targets[0] if isinstance(st, ast.Assign) and len(st.targets) == 1 else getattr(st, 'target', None)
@@ -478,20 +609,13 @@ class ETr:
                 if vt in self.ext and self.ext[vt][0] == t0.id:
                     # `now = self.env.now`: the local is the external quantity of the same name
                     self.scope[t0.id] = self.ext[vt][1]
+                    self.aliases.add(t0.id)
                     return self.block(rest)
         if isinstance(st, ast.Assign):
             if len(st.targets) != 1:
                 fail(st, 'multiple assignment targets')
             tgt = st.targets[0]
-            if self.draw and ast.unparse(st.value) == self.draw[0]:
-                if not isinstance(tgt, ast.Name):
-                    fail(st, 'the random draw must be assigned to a local')
-                if self.drawn:
-                    fail(st, 'a second random draw on one path (the model hands out one draw per call)')
-                self.drawn = True
-                val, ty, ch = self.draw[1], 'num', []
-            else:
-                val, ty, ch = self.expr(st.value)
+            val, ty, ch = self.expr(st.value)
         elif isinstance(st, ast.AnnAssign):
             if st.value is None:
                 fail(st, 'annotation without value')
@@ -533,9 +657,17 @@ class ETr:
                 fail(st, f'assignment to self.{field}, which is not in the schema')
             val2 = self.store_as(st, val, ty, want, st.value if not isinstance(st, ast.AugAssign) else None)
             self.narrow.pop(key, None)          # the field is read afresh (and tested afresh) from here on
+            self.facts.pop(key, None)
+            if want in ('optint', 'optnum') and ty in NUMERIC:
+                # a number is stored: bind it, the field is known to be that number on this path
+                var = key.replace('self.', '').replace('.', '_') + '_v'
+                inner = val if want == 'optint' else self.to_num(st.value if not isinstance(st, ast.AugAssign) else ast.Name(id='_'), val, ty)
+                self.narrow[key] = (var, 'int' if want == 'optint' else 'num')
+                self.facts[key] = 'number'
+                return Let(var, inner, ch, Let('s', f'{{ s with {field} := (some {var}) }}', [], self.block(rest)))
             return Let('s', f'{{ s with {field} := {val2} }}', ch, self.block(rest))
         if isinstance(tgt, ast.Name):
-            if tgt.id in RESERVED or tgt.id in [v[0] for v in self.ext.values()] or (self.draw and tgt.id == self.draw[1]):
+            if tgt.id in RESERVED or tgt.id in [v[0] for v in self.ext.values()] or tgt.id in self.draws.values():
                 fail(st, f'local name {tgt.id} clashes with a generated name')
             if tgt.id in self.keys:
                 fail(st, f'the class key {tgt.id} is reassigned')
@@ -579,8 +711,13 @@ class ETr:
             if self.is_ignored(st):
                 continue
             for n in ast.walk(st):
-                if isinstance(n, ast.Return):
+                if isinstance(n, (ast.Return, ast.Yield, ast.Raise, ast.Assert)):
                     return True
+                if isinstance(n, ast.Call) and ast.unparse(n) in self.draws:
+                    return True
+                if isinstance(n, ast.Attribute) and isinstance(n.value, ast.Name) and n.value.id == 'self' \
+                        and self.schema.fields.get(n.attr) in ('optint', 'optnum'):
+                    return True               # tests on / assignments to an optional field change what is known on the path
                 if isinstance(n, (ast.Assign, ast.AnnAssign, ast.AugAssign)):
                     tg = n.targets[0] if isinstance(n, ast.Assign) else n.target
                     if isinstance(tg, ast.Name):
@@ -595,22 +732,36 @@ class ETr:
         for x in (a, b):
             if not (isinstance(x, ast.Assign) and len(x.targets) == 1 and isinstance(x.targets[0], ast.Name)):
                 return None
-            if self.draw and ast.unparse(x.value) == self.draw[0]:
+            if any(ast.unparse(n) in self.draws for n in ast.walk(x.value)):
                 return None
         if a.targets[0].id != b.targets[0].id:
             return None
         return a.targets[0].id, self.expr(a.value), self.expr(b.value)
 
     def ifstmt(self, st, rest):
+        g = self.guarded_or(st.test)
+        if g is not None:
+            # `if not X or C: A else: B`  ==  `if not X: A` / `else: if C: A else: B`  (C is evaluated only when X is set)
+            inner = ast.If(test=g[1], body=st.body, orelse=st.orelse)
+            outer = ast.If(test=g[0], body=st.body, orelse=[inner])
+            ast.copy_location(inner, st); ast.copy_location(outer, st)
+            return self.ifstmt(outer, rest)
+        known = self.static_truth(st.test)
+        if known is not None:
+            # decided by an earlier test on this path (e.g. the second `if self.pir:`): only that branch is translated
+            return self.block((st.body if known else st.orelse) + rest)
         nw = self.narrowing(st.test)
         if nw is not None:
             key, scrut, var, vty, number_branch_is_body = nw
+            truth = self._truth_test
             if var in self.scope or var in RESERVED:
                 fail(st, f'generated name {var} clashes with a local')
             saved = self.save()
             self.narrow[key] = (var, vty)
+            self.facts[key] = 'truthy' if truth else 'number'
             some = self.block((st.body if number_branch_is_body else st.orelse) + rest)
             self.restore(saved)
+            self.facts[key] = 'falsy' if truth else 'none'
             none = self.block((st.orelse if number_branch_is_body else st.body) + rest)
             self.restore(saved)
             return Match(scrut, var, some, none)
@@ -671,6 +822,50 @@ def emit_value(leanname, schema, params, tr, e, origin, want='num', cls='Num'):
             f'def {leanname} {{α : Type}} [{cls} α]{sarg}{ps} : {rty} :=\n  {body}\n\n'
             f'/-- `true` iff `{leanname}` divides by no zero -/\n'
             f'def {leanname}.safe {{α : Type}} [{cls} α]{sarg}{ps} : Bool :=\n  {conj(ch)}\n')
+
+
+def emit_generator(prefix, schema, params, mk_tr, body, origin, cls='Num'):
+    """a server generator, split at its `yield env.timeout(dt)` statements.  `body` = the statements of one round of the
+    loop after the `get`.  Emits `<prefix>_resume` (from the get to the first yield or to the end of the round) and, for
+    the i-th yield in source order, `<prefix>_after_<i>` (from its resumption to the next yield or the end of the round).
+    Each sets `yield_at` (0 = the round is complete, i = suspended in yield i) and `yield_dt` (the timeout).
+    Locals bound before a yield are not part of the state: reading one afterwards is `Unsupported`."""
+    if schema.fields.get('yield_at') != 'flag' or schema.fields.get('yield_dt') != 'num':
+        raise Unsupported(f'py2lean: {prefix}: the schema needs `yield_at : flag` and `yield_dt : num`')
+    ys = [n for st in body for n in ast.walk(st) if isinstance(n, ast.Expr) and isinstance(n.value, ast.Yield)]
+    if any(isinstance(n, (ast.Yield, ast.YieldFrom)) for st in body for n in ast.walk(st)
+           if not (isinstance(n, ast.Yield) and any(y.value is n for y in ys))):
+        raise Unsupported(f'py2lean: {prefix}: a yield that is not a statement `yield env.timeout(…)`')
+    index = {id(y): i + 1 for i, y in enumerate(ys)}
+    reset = '{ s with yield_at := 0, yield_dt := (Num.ofNat 0 : α) }'
+    ps = ''.join(f' ({p} : {LEAN_TY[t]})' for p, t in params)
+    out, used, after, poison = [], set(), {}, {}
+
+    def one(name, stmts, bad, what):
+        tr = mk_tr()
+        tr.yield_index = index
+        tr.bind(params)
+        tr.poison = set(bad)
+        ir = Let('s', reset, [], tr.block(stmts))
+        for i, rest in tr.after.items():
+            after.setdefault(i, rest)
+            poison.setdefault(i, set()).update(tr.poison_at.get(i, ()))
+        used.update(tr.used_effects)
+        return (f'/-- generated from {what} -/\n'
+                f'def {name} {{α : Type}} [{cls} α] (s : {schema.name} α){ps} : {schema.name} α :=\n  {render(ir, 2, "state")}\n\n'
+                f'/-- `true` iff the executed path of `{name}` divides by zero nowhere -/\n'
+                f'def {name}.safe {{α : Type}} [{cls} α] (s : {schema.name} α){ps} : Bool :=\n  {render(ir, 2, "safe")}\n')
+
+    out.append(one(f'{prefix}_resume', body, (), f'{origin}: from the `get` to the first `yield` (or the end of the round)'))
+    done = set()
+    while set(after) - done:
+        i = min(set(after) - done)
+        done.add(i)
+        out.append(one(f'{prefix}_after_{i}', after[i], poison.get(i, ()),
+                       f'{origin}: from the resumption after yield #{i} (`{ast.unparse(ys[i - 1])[:70]}`) to the next `yield` (or the end of the round)'))
+    if done != set(index.values()):
+        raise Unsupported(f'py2lean: {prefix}: yields {sorted(set(index.values()) - done)} are unreachable in the translation')
+    return out, used, len(ys)
 
 
 # ---- helpers for fragments of generator methods -----------------------------------------------------------------------
